@@ -6,6 +6,7 @@ use h_common::{tool_error, Args};
 
 mod counter;
 mod peers;
+mod pool;
 mod sched;
 
 fn main() {
@@ -19,6 +20,8 @@ fn main() {
         ("record", "redbclose") => counter::record_redb(&args),
         ("replay", "peertracker") => peers::replay(&args),
         ("record", "peertracker") => peers::record(&args),
+        ("replay", "pooltracker") => pool::replay(&args),
+        ("record", "pooltracker") => pool::record(&args),
         _ => tool_error(&format!("unknown mode/model {mode}/{model}")),
     };
     s.write(args.opt("summary").unwrap_or_else(|| tool_error("--summary missing")));
